@@ -7,16 +7,63 @@ import copy
 
 from . import kernel
 
+_RUNNER = {"fn": None, "prelude": None}
+
 
 def _fails(cls, cfg, steps, key):
-    try:
-        res = kernel.replay_run(cls, cfg, steps)
-    except Exception:       # a shrunk candidate the world cannot execute is simply not kept
-        return None
+    """Execute a candidate; every test runs in a fresh fork of a pristine process
+    when a runner is installed (see pristine.py), else in this process."""
+    if _RUNNER["fn"] is not None:
+        res = _RUNNER["fn"](cfg, steps, _RUNNER["prelude"])
+        if not res.get("ok"):
+            return None     # a shrunk candidate the world cannot execute is simply not kept
+    else:
+        try:
+            res = kernel.replay_run(cls, cfg, steps)
+        except Exception:
+            return None
     for v in res["violations"]:
         if (v["property"], v["oracle"]) == key:
             return res
     return None
+
+
+def minimise_prelude(cls, cfg, steps, key, prelude):
+    """Drop whole earlier runs (the state they leave in the process is what the
+    failing run depends on) while the failure persists."""
+    def test(cand):
+        _RUNNER["prelude"] = cand
+        return _fails(cls, cfg, steps, key)
+    cur = list(prelude)
+    n = 2
+    while len(cur) >= 1:
+        size = max(1, len(cur) // n)
+        chunks = [cur[i:i + size] for i in range(0, len(cur), size)]
+        reduced = False
+        for i in range(len(chunks)):
+            cand = [x for j, c in enumerate(chunks) if j != i for x in c]
+            if test(cand):
+                cur = cand
+                n = max(n - 1, 2)
+                reduced = True
+                break
+        if not reduced:
+            if size == 1:
+                break
+            n = min(len(cur), n * 2)
+    # then shrink the steps of each surviving prelude run
+    for k in range(len(cur)):
+        st = cur[k]["steps"]
+        i = 0
+        while i < len(st):
+            cand_run = dict(cur[k], steps=st[:i] + st[i + 1:])
+            cand = cur[:k] + [cand_run] + cur[k + 1:]
+            if test(cand):
+                cur, st = cand, cand_run["steps"]
+            else:
+                i += 1
+    _RUNNER["prelude"] = cur
+    return cur
 
 
 def ddmin(cls, cfg, steps, key, budget=400):
@@ -106,12 +153,19 @@ def shrink_args(cls, cfg, steps, key, budget=300):
     return steps
 
 
-def minimise(cls, cfg, steps, violation):
+def minimise(cls, cfg, steps, violation, runner=None, prelude=None):
     key = (violation["property"], violation["oracle"])
+    _RUNNER["fn"], _RUNNER["prelude"] = runner, None
     if not _fails(cls, cfg, steps, key):
-        return steps, None      # not reproducible from the step list: caller reports a harness error
+        # state left by the earlier runs of the same process may be part of the failure
+        _RUNNER["prelude"] = prelude
+        if not prelude or not _fails(cls, cfg, steps, key):
+            return steps, None, None   # not reproducible: caller reports a harness error
+        minimise_prelude(cls, cfg, steps, key, prelude)
     steps = ddmin(cls, cfg, steps, key)
     steps = shrink_args(cls, cfg, steps, key)
     steps = ddmin(cls, cfg, steps, key, budget=100)
+    if _RUNNER["prelude"]:
+        minimise_prelude(cls, cfg, steps, key, _RUNNER["prelude"])
     res = _fails(cls, cfg, steps, key)
-    return steps, res
+    return steps, res, _RUNNER["prelude"]
